@@ -135,7 +135,8 @@ def handle (st : St) (idx : Nat) (line : String) : St × String :=
         ((kv rest "beh").getD "-") ((kv rest "post").getD "-")
         (match kvNat rest "la6" with
          | some k => [0x20, 0x01, 0x0d, 0xb8, 0, 0, 0, 0, 0, 0, 0, 0, 0, 0, 0, k]
-         | none => ((kv rest "la").getD "10.1.2.3").splitOn "." |>.map (fun t => t.toNat?.getD 0)) implToks))
+         | none => ((kv rest "la").getD "10.1.2.3").splitOn "." |>.map (fun t => t.toNat?.getD 0)) implToks
+        ((kvNat rest "am").getD 0)))
     | "smclient" :: "wd" :: rest =>
       (st, emit idx impl (judgeWD dict ((kvNat rest "r").getD 0) ((kv rest "beh").getD "-") implToks))
     | "sctp" :: "demux" :: rest =>
